@@ -62,6 +62,15 @@ pub fn hostile_name(r: &mut Rng, k: usize) -> String {
 }
 
 pub fn gen_names(r: &mut Rng, n: usize) -> Vec<String> {
+    // a third of the variable lists are drawn from one small pool in a random order, so that the numbers held
+    // by one object (curve nodes, spline coefficients) and numbers loaded one after the other often carry the
+    // SAME names in DIFFERENT orders
+    if n >= 1 && n <= 3 && r.chance(0.35) {
+        let mut pool: Vec<String> = ["u", "v", "w"].iter().map(|s| s.to_string()).collect();
+        r.shuffle(&mut pool);
+        pool.truncate(n);
+        return pool;
+    }
     let mut v: Vec<String> = vec![];
     let mut k = 0;
     while v.len() < n {
@@ -261,11 +270,23 @@ pub fn gen_curve_obj(r: &mut Rng) -> CurveObj {
     }
     let order = r.usize(3);
     let mut m: IndexMap<NaiveDateTime, Number> = IndexMap::new();
+    let shared_names = r.chance(0.4);
     for i in spec.supply.iter() {
         let v = spec.vals[*i];
+        // node numbers either carry one variable of their own or two shared names in a per-node order
+        let shared = if shared_names { Some(if r.bool() { vec!["p".to_string(), "q".to_string()] } else { vec!["q".to_string(), "p".to_string()] }) } else { None };
         let num = match r.below(4) {
-            0 => Number::Dual(Dual::try_new(v, vec![format!("own{}", i)], vec![hostile_f64(r)]).unwrap()),
-            1 => Number::Dual2(Dual2::try_new(v, vec![format!("own{}", i)], vec![hostile_f64(r)], vec![hostile_f64(r)]).unwrap()),
+            0 => match &shared {
+                Some(nm) => Number::Dual(Dual::try_new(v, nm.clone(), vec![hostile_f64(r), hostile_f64(r)]).unwrap()),
+                None => Number::Dual(Dual::try_new(v, vec![format!("own{}", i)], vec![hostile_f64(r)]).unwrap()),
+            },
+            1 => match &shared {
+                Some(nm) => {
+                    let x = hostile_f64(r);
+                    Number::Dual2(Dual2::try_new(v, nm.clone(), vec![hostile_f64(r), hostile_f64(r)], vec![hostile_f64(r), x, x, hostile_f64(r)]).unwrap())
+                }
+                None => Number::Dual2(Dual2::try_new(v, vec![format!("own{}", i)], vec![hostile_f64(r)], vec![hostile_f64(r)]).unwrap()),
+            },
             _ => Number::F64(v),
         };
         m.insert(ts_to_ndt(spec.ts[*i]), num);
